@@ -13,19 +13,19 @@ type ssInner struct {
 }
 
 type ssAll struct {
-	U8  uint8     `tlv8:"1"`
-	U16 uint16    `tlv8:"2"`
-	U32 uint32    `tlv8:"3"`
-	U64 uint64    `tlv8:"4"`
-	I16 int16     `tlv8:"5"`
-	I32 int32     `tlv8:"6"`
-	I64 int64     `tlv8:"7"`
-	F32 float32   `tlv8:"8"`
-	B   bool      `tlv8:"9"`
-	S   string    `tlv8:"10"`
-	Bs  []byte    `tlv8:"11"`
-	N   ssInner   `tlv8:"12"`
-	L   []ssInner `tlv8:"13"`
+	U8      uint8     `tlv8:"1"`
+	U16     uint16    `tlv8:"2"`
+	U32     uint32    `tlv8:"3"`
+	U64     uint64    `tlv8:"4"`
+	I16     int16     `tlv8:"5"`
+	I32     int32     `tlv8:"6"`
+	I64     int64     `tlv8:"7"`
+	F32     float32   `tlv8:"8"`
+	B       bool      `tlv8:"9"`
+	S       string    `tlv8:"10"`
+	Bs      []byte    `tlv8:"11"`
+	N       ssInner   `tlv8:"12"`
+	L       []ssInner `tlv8:"13"`
 	skipped int
 }
 
